@@ -11,6 +11,7 @@ import (
 	"sort"
 	"strings"
 
+	"github.com/douban/gobeansdb/cmem"
 	"verif/ref"
 )
 
@@ -239,4 +240,60 @@ func VFSetMergeChan(on bool) {
 	} else {
 		mergeChan = nil
 	}
+}
+
+// VFCollisionRoute tells through which index structure a get of key would be
+// served right now (without performing it): the collision table, the key's own
+// record behind the shared tree slot, a hint lookup because the slot belongs to
+// a sibling with the same hash, or nothing. It only reads.
+func VFCollisionRoute(s *HStore, key string) string {
+	ki := &KeyInfo{Key: []byte(key), StringKey: key}
+	ki.KeyHash = getKeyHash(ki.Key)
+	if ki.Prepare() != nil {
+		return "invalid-key"
+	}
+	bkt := s.buckets[ki.BucketID]
+	if bkt.State != BUCKET_STAT_READY {
+		return "unserved"
+	}
+	if hintit, _ := bkt.hints.collisions.get(ki.KeyHash, ki.StringKey); hintit != nil {
+		// GC keeps a record only while the hash still has a tree slot; a slot
+		// removed by a sibling's replayed tombstone is part of the mechanism
+		slot := "/slot"
+		if _, _, found := bkt.htree.get(ki); !found {
+			slot = "/no-slot"
+		}
+		if hintit.Ver < 0 {
+			return "table-tombstone" + slot
+		}
+		return "table" + slot
+	}
+	_, pos, found := bkt.htree.get(ki)
+	if !found {
+		return "no-slot"
+	}
+	rec, _, err := bkt.datas.GetRecordByPos(pos)
+	if err != nil || rec == nil {
+		return "slot-unreadable"
+	}
+	own := string(rec.Key) == key
+	sameHash := getKeyHash(rec.Key) == ki.KeyHash
+	cmem.DBRL.GetData.SubSizeAndCount(rec.Payload.CArray.Cap)
+	rec.Payload.CArray.Free()
+	switch {
+	case own:
+		return "slot-own"
+	case !sameHash:
+		return "slot-other-hash"
+	}
+	it, _, err := bkt.hints.getItem(ki.KeyHash, ki.StringKey, false)
+	switch {
+	case err != nil:
+		return "slot-sibling/hint-error"
+	case it == nil:
+		return "slot-sibling/hint-none"
+	case it.Ver < 0:
+		return "slot-sibling/hint-tombstone"
+	}
+	return "slot-sibling/hint-found"
 }
